@@ -243,6 +243,15 @@ namespace verif
         {
             // ---- Cookie write -> parse ---------------------------------------------
             Gen g = gen_cookie(c);
+            if (g.cookie.expires && g.nattrs % 3)
+            {
+                // what an application does that also logs the expiry: the same instant is written through FullDate's
+                // public write() in another of its formats just before the cookie is written (by the attribute count,
+                // no choice consumed); the cookie's text must not depend on it
+                std::ostringstream log;
+                g.cookie.expires->write(log, g.nattrs % 3 == 1 ? FullDate::Type::RFC850 : FullDate::Type::AscTime);
+                rep.label(g.nattrs % 3 == 1 ? "expiry-written-as-rfc850-just-before" : "expiry-written-as-asctime-just-before");
+            }
             std::ostringstream os;
             os << g.cookie;
             std::string text = os.str();
